@@ -22,7 +22,9 @@ def classify(width, value, dt):
         hi, lo = value >> 8, value & 0xFF
         from models import addr_ref
         if addr_ref.gear_address(value) is not None and hi % 2 == 1 and lo >= 224:
-            c = cmd_ref.classify16(value, dt) if dt else cmd_ref.UNKNOWN
+            # application extended opcodes mean something under a device type only - except 255, which part 102 itself
+            # defines (QUERY EXTENDED VERSION NUMBER) and which therefore is a query in any context
+            c = cmd_ref.classify16(value, dt) if dt else (c if c[0] == "known" else cmd_ref.UNKNOWN)
         elif c[0] != "known" and dt:
             c2 = cmd_ref.classify16(value, dt)
             if c2[0] == "known":
